@@ -241,6 +241,17 @@ pub fn gen_malformed(rng: &mut Rng, data: &[u8]) -> Vec<u8> {
                 };
                 lookalike = c.to_string().into_bytes();
                 &lookalike
+            } else if rng.chance(1, 3) {
+                // any ASCII byte that is neither a hex digit nor ASCII whitespace (separators such as
+                // ':' ',' ';' '"', control characters, DEL ...): leniency is about layout only
+                let c = loop {
+                    let c = rng.below(128) as u8;
+                    if !c.is_ascii_hexdigit() && !matches!(c, 9..=13 | 32) {
+                        break c;
+                    }
+                };
+                lookalike = vec![c];
+                &lookalike
             } else {
                 bad[rng.usize_below(bad.len())]
             };
